@@ -399,11 +399,14 @@ def run_case(case, tier):
             # the modular argument (verifier + dominance) no longer applies
             res["inconclusive"].append(f"affine_between no longer has the verified-return structure: {info}")
         return res
+    opts = {"snap_cut": True, "axioms": (), "branch_ms": 1500}
+    if case["kind"] == "round":
+        opts["round_integral"] = True
     return common.run_symbolic(
         harness_for(case),
         mods_=m,
         timeout_ms=15000 if tier == "quick" else 60000,
-        opts={"snap_cut": True, "axioms": (), "branch_ms": 1500},
+        opts=opts,
         validate_every=15,
         trace_first=1,
         compare_obs=False,
